@@ -40,6 +40,8 @@ pub fn issuer_spec(rng: &mut Rng, key: &str, iss_idx: usize) -> IssuerSpec {
             }
         }
         "ed" => Some("EdDSA".to_string()),
+        "e3" => Some("ES384".to_string()),
+        "rs" => Some(rng.pick(&["RS256", "RS256", "PS256", "RS384", "PS384", "RS512", "PS512"]).to_string()),
         _ => Some(rng.pick(&["HS256", "HS256", "HS384", "HS512"]).to_string()),
     };
     IssuerSpec { key: key.to_string(), alg, iss: ISS_NAMES[iss_idx % ISS_NAMES.len()].to_string() }
@@ -47,13 +49,24 @@ pub fn issuer_spec(rng: &mut Rng, key: &str, iss_idx: usize) -> IssuerSpec {
 
 /// Two or three issuers with pairwise different keys; the first one's family is drawn per run.
 pub fn issuers(rng: &mut Rng, n: usize) -> Vec<IssuerSpec> {
+    // RSA and P-384 issuers are rarer (an RSA signature costs a millisecond)
     let mut keys = vec!["ecA", "ecB", "edA", "hsA"];
+    if rng.chance(1, 4) {
+        keys.push("rsA");
+    }
+    if rng.chance(1, 4) {
+        keys.push("e3A");
+    }
     rng.shuffle(&mut keys);
     keys.iter().take(n).enumerate().map(|(i, k)| issuer_spec(rng, k, i)).collect()
 }
 
 pub fn holder_key(rng: &mut Rng) -> String {
-    let k = if rng.bool() { "ecC" } else { "edB" };
+    let k = match rng.usize(8) {
+        0 => "rsB",
+        1..=4 => "ecC",
+        _ => "edB",
+    };
     // the same key material under different JWK metadata (a `kid` label): wallets rotate labels
     match rng.usize(4) {
         0 => format!("{}#k{}", k, rng.below(3)),
@@ -63,6 +76,8 @@ pub fn holder_key(rng: &mut Rng) -> String {
 
 pub fn kb_alg_for(rng: &mut Rng, key: &str) -> Option<String> {
     match &key[..2] {
+        "rs" => Some(rng.pick(&["RS256", "PS256", "RS384", "PS384", "RS512", "PS512"]).to_string()),
+        "e3" => Some("ES384".into()),
         "ec" => {
             if rng.bool() {
                 None
@@ -461,7 +476,7 @@ pub fn gen_c02(rng: &mut Rng, tier: Tier) -> MsgScn {
         c.expand = Some(Expand::CorruptEvery { part, sample, seed: rng.next_u64() });
         cases.push(c);
     }
-    let other_keys: Vec<String> = ["ecA", "ecB", "ecD", "edA", "edC", "hsA", "hsB"].iter().map(|s| s.to_string()).collect();
+    let other_keys: Vec<String> = ["ecA", "ecB", "ecD", "edA", "edC", "hsA", "hsB", "rsA", "rsB", "e3A"].iter().map(|s| s.to_string()).collect();
     let n_cases = match tier {
         Tier::Quick => 40,
         Tier::Thorough => 160,
@@ -500,13 +515,13 @@ pub fn gen_c02(rng: &mut Rng, tier: Tier) -> MsgScn {
                     3 => AlgMode::Unknown(rng.pick(&["XS256", "", "es256", "HS257", "ES256 "]).to_string()),
                     4 | 5 => AlgMode::HsWithPub {
                         // the key the directory will return for this token is the interesting one
-                        kid: if rng.chance(3, 4) && !iss[0].key.starts_with("hs") { iss[0].key.clone() } else { rng.pick(&["ecA", "ecB", "edA"]).to_string() },
+                        kid: if rng.chance(3, 4) && !iss[0].key.starts_with("hs") { iss[0].key.clone() } else { rng.pick(&["ecA", "ecB", "edA", "rsA", "e3A"]).to_string() },
                         form: *rng.pick(&[PubForm::Pem, PubForm::Der, PubForm::Raw, PubForm::Raw]),
                         hs: rng.pick(&["HS256", "HS256", "HS384", "HS512"]).to_string(),
                     },
                     6 if rng.bool() => AlgMode::ResignEmbedJwk(rng.pick(&["ecD", "edC", "ecB", "edA"]).to_string()),
                     6 => AlgMode::Relabel(rng.pick(&["HS256", "EdDSA", "ES256", "ES384", "RS256", "PS256", "HS512"]).to_string()),
-                    _ => AlgMode::ResignOtherFamily(rng.pick(&["ecD", "edC", "hsB", "ecB", "edA"]).to_string()),
+                    _ => AlgMode::ResignOtherFamily(rng.pick(&["ecD", "edC", "hsB", "ecB", "edA", "rsB", "e3A"]).to_string()),
                 };
                 Fault::AlgRewrite(m)
             }
